@@ -117,6 +117,53 @@ def check_embedding(lines, kind, how, emb, base):
     return f
 
 
+def nested_variants(lines, tier):
+    """two embeddings applied one after the other (quote in list item, list item in quote, ...)"""
+    inner = [('quote', '> ', embed_quote(lines, False))]
+    if lines[0] and not lines[0].startswith(' '):
+        inner += [('list', '%s+%d' % (m, p), embed_list(lines, m, p)) for m, p in (('-', 1), ('10.', 2), ('1)', 3))
+                  if not THEMATIC.match(m + ' ' * p + lines[0])]
+    for k1, h1, e1 in inner:
+        yield ('quote', k1), '> (' + h1 + ')', embed_quote(e1, False)
+        yield ('quote', k1), '>(' + h1 + ')', embed_quote(e1, True)
+        if e1[0] and not e1[0].startswith(' '):
+            for m, p in (('-', 1), ('10.', 1), ('7)', 4)):
+                if not THEMATIC.match(m + ' ' * p + e1[0]):
+                    yield ('list', k1), '%s+%d(%s)' % (m, p, h1), embed_list(e1, m, p)
+
+
+def check_nested(lines, kinds, how, emb, base):
+    try:
+        ch, fn = ast_of('\n'.join(emb) + '\n')
+    except Exception as e:
+        return dict(sig=core.exc_sig(e), detail=repr(e))
+    node = ch
+    for kind in kinds:
+        want_type = 'Quote' if kind == 'quote' else 'List'
+        if not (len(node) == 1 and node[0]['type'] == want_type):
+            node = None
+            break
+        if kind == 'quote':
+            node = node[0]['children']
+        else:
+            if len(node[0]['children']) != 1:
+                node = None
+                break
+            node = node[0]['children'][0]['children']
+    if node is not None and node == base[0] and fn == base[1]:
+        return None
+    return dict(sig='nested-embedding-changes-parse:%s-in-%s' % (kinds[1], kinds[0]), expected=base[0], observed=ch)
+
+
+def has_known_defect_trigger(lines, base):
+    """inputs of the two recorded findings are kept out of the nested family (they are judged, with their defect
+    models, by the single embeddings)"""
+    if any(l and not l.strip() for l in lines):
+        return True
+    import json
+    return 'SetextHeading' in json.dumps(base[0])
+
+
 def run_text(r, lines, tier):
     text = '\n'.join(lines) + '\n'
     try:
@@ -125,6 +172,15 @@ def run_text(r, lines, tier):
         r.skip('T alone raises (C01)')
         return
     r.states += 1
+    if len(lines) <= 2 and not has_known_defect_trigger(lines, base):
+        for kinds, how, emb in nested_variants(lines, tier):
+            r.transitions += 1
+            r.validated += 1
+            f = check_nested(lines, kinds, how, emb, base)
+            if f:
+                r.fail(dict(lines=lines, kind='nested', how=how, kinds=list(kinds), embedded=emb), f['sig'], f.get('detail', ''),
+                       expected=f.get('expected'), observed=f.get('observed'))
+            r.outcome('nested:' + kinds[0] + '/' + kinds[1])
     for kind, how, emb in variants(lines, tier):
         r.transitions += 1
         r.validated += 1
@@ -173,6 +229,12 @@ def run_job(job):
 
 def replay(case):
     lines = case['lines']
+    if case.get('kind') == 'nested':
+        try:
+            base = ast_of('\n'.join(lines) + '\n')
+        except Exception:
+            return None
+        return check_nested(lines, tuple(case['kinds']), case['how'], case['embedded'], base)
     try:
         base = ast_of('\n'.join(lines) + '\n')
     except Exception:
